@@ -54,7 +54,7 @@ def unit_quaternion_class_conversions(env, cfg, ck):
     np, sm = env.np, env.sm
     p = env.unitvec('p', 4)
     env.assume(p[0] >= 0.1)
-    q = [0.5, 0.5, -0.5, 0.5]                 # second operand concrete: extraction branches on every matrix entry
+    q = [env.const('3/5'), env.const('12/25'), env.const('16/25'), 0]                 # second operand concrete: extraction branches on every matrix entry
     Rp, Rq = A.quat_to_R(np, p), A.quat_to_R(np, q)
     X, Y = sm.SO3(Rp, check=False), sm.SO3(Rq, check=False)
     UX, UY = ck.call(sm.UnitQuaternion, X), ck.call(sm.UnitQuaternion, Y)
@@ -123,7 +123,7 @@ def shared_named_constructors_agree(env, cfg, ck):
             o = [env.real('o0', 0.5, 2.0), env.real('o1', -0.02, 0.02), env.real('o2', -0.02, 0.02)]
             a_ = [env.real('a0', -0.02, 0.02), env.real('a1', -0.02, 0.02), env.real('a2', 0.5, 2.0)]
         else:
-            o, a_ = [1.0, 0.3, -0.2], [0.1, -0.4, 2.0]
+            o, a_ = [env.const('3/5'), env.const('4/5'), 0], [0, 0, 2]           # exact rationals with rational norms
         spec = None
         call = lambda C: C.OA(o, a_)
     else:
@@ -151,7 +151,7 @@ def unit_dual_quaternion_is_a_homomorphism(env, cfg, ck):
     np, sm = env.np, env.sm
     p = env.unitvec('p', 4)
     env.assume(p[0] >= 0.1)
-    q = [0.5, 0.5, -0.5, 0.5]                 # second operand's rotation concrete (extraction branches on every entry)
+    q = [env.const('3/5'), env.const('12/25'), env.const('16/25'), 0]                 # second operand's rotation concrete (extraction branches on every entry)
     tp, tq = env.reals('s', 3), env.reals('t', 3)
     TX, TY = A.homog(np, A.quat_to_R(np, p), tp), A.homog(np, A.quat_to_R(np, q), tq)
     X, Y = sm.SE3(TX, check=False), sm.SE3(TY, check=False)
